@@ -790,10 +790,13 @@ class Saver:
     @staticmethod
     def _still_pending(pending):
         """Drop completed futures from pending, raising the exception of any that failed."""
+        still_pending = []
         for f in pending:
             if f.done():
                 f.result()
-        return [f for f in pending if not f.done()]
+            else:
+                still_pending.append(f)
+        return still_pending
 
     def save(self, chunk: strax.Chunk, chunk_i: int, executor=None):
         """Save a chunk, returning future to wait on or None."""
